@@ -9,6 +9,7 @@ import (
 	"encoding/binary"
 	"encoding/hex"
 	"fmt"
+	"go/ast"
 	"io"
 	"sort"
 	"strconv"
@@ -32,6 +33,60 @@ func facts(f *hc.Facts) {
 	f.Const("defaultPartSize", "telegram/uploader", "defaultPartSize")
 	f.Const("paddingPartSize", "telegram/uploader", "paddingPartSize")
 	f.Const("maximumPartSize", "telegram/uploader", "MaximumPartSize")
+	// the per-part retry loops (`for { rpc; flood → continue; false → again }`) have no counter / limit:
+	// control skeleton = conditions of the ifs and the branch/return statements, in source order
+	skeleton := func(fn, rpc string) string {
+		fd := f.FuncDecl("telegram/uploader", fn)
+		out := "missing"
+		if fd == nil {
+			return out
+		}
+		ast.Inspect(fd.Body, func(n ast.Node) bool {
+			fs, ok := n.(*ast.ForStmt)
+			if !ok || !strings.Contains(f.Src(fs.Body), rpc) {
+				return true
+			}
+			if inner := fs.Body; inner != nil {
+				// descend to the innermost `for` that contains the RPC call
+				for _, st := range inner.List {
+					if in, ok := st.(*ast.ForStmt); ok && strings.Contains(f.Src(in.Body), rpc) {
+						return true
+					}
+				}
+			}
+			var parts []string
+			if fs.Init != nil || fs.Cond != nil || fs.Post != nil {
+				parts = append(parts, "for-header")
+			}
+			ast.Inspect(fs.Body, func(m ast.Node) bool {
+				switch s := m.(type) {
+				case *ast.IfStmt:
+					parts = append(parts, "if "+f.Src(s.Cond))
+				case *ast.BranchStmt:
+					parts = append(parts, s.Tok.String())
+				case *ast.ReturnStmt:
+					parts = append(parts, "return")
+				case *ast.IncDecStmt:
+					parts = append(parts, f.Src(s))
+				case *ast.ForStmt:
+					parts = append(parts, "for")
+				}
+				return true
+			})
+			out = strings.Join(parts, " | ")
+			return false
+		})
+		return out
+	}
+	big := skeleton("Uploader.uploadBigFilePart", "UploadSaveBigFilePart")
+	small := skeleton("Uploader.smallLoop", "UploadSaveFilePart")
+	wantBig := "if err != nil | if flood | continue | return | if r | return"
+	wantSmall := "if err != nil | if flood | continue | return | if !r | continue | break"
+	if big == wantBig && small == wantSmall {
+		f.Bool("retryLoopsUnbounded", true, "uploadBigFilePart: "+big+" ## smallLoop: "+small)
+	} else {
+		f.Raw("def retryLoopsUnbounded : Bool := missing_fact_retryLoopsUnbounded -- uploadBigFilePart: " + big + " ## smallLoop: " + small)
+	}
 	f.TranslateFuncs("telegram/uploader", "checkPartSize", "checkPartSize", "computeParts", "computeParts", "computePartSize", "computePartSize")
 }
 
@@ -265,6 +320,19 @@ func validPS(ps int) bool { return ps > 0 && ps%1024 == 0 && 524288%ps == 0 }
 
 func genScript(r *hc.RNG, nparts int, floodBudget *int, allowErr bool) map[int]string {
 	sc := map[int]string{}
+	if nparts > 0 && r.Chance(20) {
+		// a run of 1..64 consecutive refusals of ONE part (first / middle / last): `false` answers are
+		// retried at once, a FLOOD_WAIT costs a real second (at most one, within the budget)
+		part := hc.Pick(r, 0, nparts/2, nparts-1)
+		n := hc.Pick(r, 1, 2, 5, 19, 20, 21, 32, 63, 64, r.Range(1, 64))
+		b := []byte(strings.Repeat("n", n))
+		if *floodBudget > 0 && r.Chance(15) {
+			*floodBudget--
+			b[r.Intn(n)] = 'f'
+		}
+		sc[part] = string(b)
+		return sc
+	}
 	if nparts == 0 || r.Chance(45) {
 		return sc
 	}
@@ -491,6 +559,11 @@ func run(c *hc.Ctx) error {
 		}
 		if len(u.script) > 0 {
 			c.Count("upload.with-retries")
+			for _, sc := range u.script {
+				if len(sc) >= 20 {
+					c.Count("upload.retry-run>=20")
+				}
+			}
 		}
 		ids := make([]int, 0, len(m.parts))
 		for id := range m.parts {
@@ -517,7 +590,7 @@ func run(c *hc.Ctx) error {
 		pend = append(pend, pending{u, res, ids})
 	}
 
-	c.Res.Rule = "arithmetic: totals around k·3999·128 KiB, small, up to 2^40, part sizes valid and invalid; uploads: sizes 0, 1, ps±1, k·ps, random (byte-level up to 12 KiB with part sizes 1–4 KiB), up to 40 parts of every valid part size, 10 MiB±1, 3999·1 KiB±1 (small part limit), 3999·128 KiB(+1) (thorough: also 3999·256 KiB, 3999·512 KiB), known and unknown total, automatic/explicit/invalid part size, 1..8 threads, readers returning full/random/tiny chunks, scripted false/FLOOD_WAIT/error answers; non-trivial = non-empty source (uploads) or total beyond 3999·128 KiB (arithmetic); distinct = distinct input line"
+	c.Res.Rule = "arithmetic: totals around k·3999·128 KiB, small, up to 2^40, part sizes valid and invalid; uploads: sizes 0, 1, ps±1, k·ps, random (byte-level up to 12 KiB with part sizes 1–4 KiB), up to 40 parts of every valid part size, 10 MiB±1, 3999·1 KiB±1 (small part limit), 3999·128 KiB(+1) (thorough: also 3999·256 KiB, 3999·512 KiB), known and unknown total, automatic/explicit/invalid part size, 1..8 threads, readers returning full/random/tiny chunks, scripted false/FLOOD_WAIT/error answers incl. runs of 1..64 consecutive refusals of the first / a middle / the last part; non-trivial = non-empty source (uploads) or total beyond 3999·128 KiB (arithmetic); distinct = distinct input line"
 	c.PartialNote("goroutine scheduling of bigLoop below the granularity of whole part requests, and the unsynchronised read of upload.totalParts (unknown-size uploads: earlier parts may carry -1 or n), are not exhibited by the model; the model fixes only the per-part request sequence")
 
 	outs, err := c.Drv.Batch(lines)
